@@ -23,12 +23,14 @@ Definition cache_region (p:nat) (B:N) (l:list line) : list byte := encode p (cac
    C15/C07 data file, C06 index, C08/C09 caches *)
 Definition handle_files (h:shandle) : sfs :=
   let p := sh_p h in
+  match sh_dmg h with Some _ => [] | None =>     (* C18 says nothing about the files; they are expected to stay as they are *)
   (sh_name h ++ s_ext_data, enc_outer (data_header p (sh_hdr h)) ++ sh_region h)
   :: (sh_name h ++ s_ext_index, index_file p (sh_region h))
   :: flat_map (fun B =>
         let r := cache_region p B (sh_lines h) in
         [ (s_cache_name (sh_name h) B ++ s_ext_data, enc_outer (cache_header (sh_name h) B) ++ r);
-          (s_cache_name (sh_name h) B ++ s_ext_index, index_file p r) ]) (sh_caches h).
+          (s_cache_name (sh_name h) B ++ s_ext_index, index_file p r) ]) (sh_caches h)
+  end.
 Definition put_all (fs:sfs) (files:sfs) : sfs := fold_left (fun acc kv => sfs_put acc (fst kv) (snd kv)) files fs.
 Definition expected_files (s:sstate) : sfs :=
   match ss_h s with Some h => put_all (ss_fs s) (handle_files h) | None => ss_fs s end.
@@ -55,7 +57,7 @@ Definition wf_lines (p:nat) (l:list line) : bool :=
   strictly_inc l && forallb (fun x => (length (snd x) =? p) && (fst x <? U64)%N) l.
 
 (* the state after an operation whose effect the properties do not determine *)
-Definition undetermined (s:sstate) : sstate := {| ss_fs := ss_fs s; ss_h := None; ss_det := false |}.
+Definition undetermined (s:sstate) : sstate := {| ss_fs := ss_fs s; ss_h := None; ss_orig := ss_orig s; ss_det := false |}.
 Definition anything (_:out) : bool := true.
 
 Definition first_last (l:list line) : option (N * N) :=
@@ -72,7 +74,7 @@ Definition sections_touched (p:nat) (region:list byte) (sel:list line) : N :=
   end.
 
 Definition close_handle (s:sstate) : sstate :=
-  {| ss_fs := expected_files s; ss_h := None; ss_det := ss_det s |}.
+  {| ss_fs := expected_files s; ss_h := None; ss_orig := ss_orig s; ss_det := ss_det s |}.
 
 Definition any_stale (fs:sfs) (name:list byte) (caches:list N) : bool :=
   sfs_mem fs (name ++ s_ext_index)
@@ -87,8 +89,76 @@ Definition spec_new (s:sstate) (name:list byte) (p:N) (hdr:list byte) (caches:li
   if (65535 <? len (data_header pn hdr))%N then (s0, is_err) else                    (* C17: failing create leaves nothing *)
   if any_stale fs name caches then (s0, is_err) else
   let h := {| sh_name := name; sh_p := pn; sh_hdr := hdr; sh_caches := caches; sh_cb := cb;
-              sh_rlines := []; sh_rregion := []; sh_full := None |} in
-  ({| ss_fs := fs; ss_h := Some h; ss_det := ss_det s0 |}, fun o => is_out o (ROpened p hdr)).
+              sh_rlines := []; sh_rregion := []; sh_full := None; sh_dmg := None |} in
+  ({| ss_fs := fs; ss_h := Some h; ss_orig := sfs_del (ss_orig s0) (name ++ s_ext_data); ss_det := ss_det s0 |}, fun o => is_out o (ROpened p hdr)).
+
+(* C18: the data file has lone marker lines. Determined only when: the file is a line-by-line overwritten
+   copy of a legal file that is remembered, same length, the index is the one of that legal file, no caches,
+   the damage is not at the very end (a complete section follows the last lone marker, so that the tail of
+   the file is as the index says), and every line the skipping decoder certifies was genuinely appended. *)
+Definition open_damaged (s0:sstate) (name:list byte) (pf:parsed) (hdr:hdropt) (caches:list N) (cb:cbmode) : sstate * (out -> bool) :=
+  let fs := ss_fs s0 in
+  let p := pf_p pf in
+  let sc := lenient p (pf_region pf) in
+  match sfs_get (ss_orig s0) (name ++ s_ext_data), caches, l_st sc with
+  | Some ofile, [], LN (Some full) false =>
+      match parse_file ofile with
+      | Some opf =>
+          match decode (pf_p opf) (pf_region opf), sfs_get fs (name ++ s_ext_index) with
+          | Some lo, Some idx =>
+              if (pf_p opf =? p) && bytes_eqb (pf_user opf) (pf_user pf) && (length (pf_region opf) =? length (pf_region pf))
+                 && negb (l_bad sc) && (1 <=? l_lone sc) && wf_lines p lo
+                 && bytes_eqb idx (index_file p (pf_region opf))
+                 && is_subseq (frev (l_sure sc)) lo
+                 && negb (sfs_mem fs (name ++ s_ext_part))
+                 && match hdr with HdrIs e => bytes_eqb e (pf_user pf) | HdrAny => true end
+              then
+                let h := {| sh_name := name; sh_p := p; sh_hdr := pf_user pf; sh_caches := []; sh_cb := cb;
+                            sh_rlines := frev lo; sh_rregion := frev (pf_region pf); sh_full := Some full;
+                            sh_dmg := Some (frev (l_sure sc)) |} in
+                ({| ss_fs := fs; ss_h := Some h; ss_orig := ss_orig s0; ss_det := ss_det s0 |},
+                 fun o => is_out o (ROpened (N.of_nat p) (pf_user pf)))
+              else (undetermined s0, anything)
+          | _, _ => (undetermined s0, anything)
+          end
+      | None => (undetermined s0, anything)
+      end
+  | _, _, _ => (undetermined s0, anything)
+  end.
+
+Definition both_unb (lo hi:bound) : bool := match lo, hi with Unb, Unb => true | _, _ => false end.
+Definition is_corrupt_err (o:out) : bool := match o with RErr ECorrupt => true | _ => false end.
+(* C18, a read of a damaged series. Without consent a read over everything stops with the corruption error;
+   with consent it returns only genuine lines (a subsequence of what was appended), and all those of the
+   intact sections. Never a panic, never a made-up line. For reads between bounds the property does not say
+   whether the read meets the damage: only "genuine lines or an error" is demanded there. *)
+Definition damaged_read (h:shandle) (sure:list line) (lo hi:bound) (limit:option N) (o:out) : bool :=
+  let orig := sh_lines h in
+  let fits out := match limit with Some n => (len out <=? n)%N | None => true end in
+  match sh_cb h with
+  | CbAllow =>
+      match o with
+      | RLines out => is_subseq out orig && fits out
+                      && (if both_unb lo hi
+                          then match limit with
+                               | None => is_subseq sure out
+                               | Some n => (N.min n (len sure) <=? len out)%N
+                               end
+                          else true)
+      | RErr _ => negb (both_unb lo hi)
+      | _ => false
+      end
+  | _ =>
+      match o with
+      | RErr e => if both_unb lo hi then is_corrupt_err o else true
+      | RLines out => match limit with
+                      | Some n => is_prefix out (select lo hi orig) && fits out && negb (both_unb lo hi && (len out <? N.min n (len orig))%N)
+                      | None => negb (both_unb lo hi) && is_subseq out orig
+                      end
+      | _ => false
+      end
+  end.
+Definition no_panic (o:out) : bool := match o with ROPanic => false | ROHang => false | _ => true end.
 
 Definition spec_open (s:sstate) (name:list byte) (popt:option N) (hdr:hdropt) (caches:list N) (cb:cbmode) : sstate * (out -> bool) :=
   let s0 := close_handle s in
@@ -105,19 +175,20 @@ Definition spec_open (s:sstate) (name:list byte) (popt:option N) (hdr:hdropt) (c
           then (s0, is_err)                                 (* C17: other payload size demanded *)
           else
           match recover p (pf_region pf) with
-          | None => (undetermined s0, anything)            (* damage that is not a torn tail: C18 territory *)
+          | None => open_damaged s0 name pf hdr caches cb    (* damage that is not a torn tail: C18 *)
           | Some (l, good) =>
               if negb (wf_lines p l) then (undetermined s0, anything) else
               let h := {| sh_name := name; sh_p := p; sh_hdr := pf_user pf; sh_caches := caches; sh_cb := cb;
                           sh_rlines := frev l; sh_rregion := frev (take good (pf_region pf));
-                          sh_full := last_full p (take good (pf_region pf)) |} in
-              let s1 := {| ss_fs := sfs_del fs (name ++ s_ext_part); ss_h := Some h; ss_det := ss_det s0 |} in
+                          sh_full := last_full p (take good (pf_region pf)); sh_dmg := None |} in
+              let s1 := {| ss_fs := sfs_del fs (name ++ s_ext_part); ss_h := Some h;
+                           ss_orig := sfs_del (ss_orig s0) (name ++ s_ext_data); ss_det := ss_det s0 |} in
               match hdr with
               | HdrIs expected =>
                   if bytes_eqb expected (pf_user pf) then (s1, fun o => is_out o (ROpened (N.of_nat p) expected))
                   else (* C17: other header demanded: an error. Repairs may or may not have run before
                           the comparison; the properties only fix the files when nothing had to change *)
-                       ({| ss_fs := fs; ss_h := None; ss_det := ss_det s0 && sfs_same fs (expected_files s1) |}, is_err)
+                       ({| ss_fs := fs; ss_h := None; ss_orig := ss_orig s0; ss_det := ss_det s0 && sfs_same fs (expected_files s1) |}, is_err)
               | HdrAny => (s1, fun o => is_out o (ROpened (N.of_nat p) (pf_user pf)))
               end
           end
@@ -140,25 +211,45 @@ Definition with_h (s:sstate) (k:shandle -> sstate * (out -> bool)) : sstate * (o
   | None => (s, is_no_handle)
   | Some h => k h
   end.
-Definition set_h (s:sstate) (h:shandle) : sstate := {| ss_fs := ss_fs s; ss_h := Some h; ss_det := ss_det s |}.
+Definition set_h (s:sstate) (h:shandle) : sstate := {| ss_fs := ss_fs s; ss_h := Some h; ss_orig := ss_orig s; ss_det := ss_det s |}.
 
 Definition spec_push (s:sstate) (ts:N) (pay:list byte) : sstate * (out -> bool) :=
   with_h s (fun h =>
     if accepts_r (sh_p h) (sh_rlines h) ts pay then
       let '(b, f') := tail_bytes (sh_p h) (sh_full h) (ts, pay) in
       (set_h s {| sh_name := sh_name h; sh_p := sh_p h; sh_hdr := sh_hdr h; sh_caches := sh_caches h; sh_cb := sh_cb h;
-                  sh_rlines := (ts, pay) :: sh_rlines h; sh_rregion := rev_append b (sh_rregion h); sh_full := f' |},
+                  sh_rlines := (ts, pay) :: sh_rlines h; sh_rregion := rev_append b (sh_rregion h); sh_full := f'; sh_dmg := None |},
        fun o => is_out o RUnit)
     else (s, is_err)).                                   (* C03: refused, nothing changes *)
 
-Definition spec_fs (s:sstate) (k:sfs -> sfs * (out -> bool)) : sstate * (out -> bool) :=
+(* file-system faults between sessions. keep = Some f: single lines of f are overwritten (fs_patch): what f
+   held before the first such overwrite is remembered (C18); any other change of a file forgets it *)
+Definition spec_fs (s:sstate) (f:list byte) (patch:bool) (k:sfs -> sfs * (out -> bool)) : sstate * (out -> bool) :=
   match ss_h s with
   | Some _ => (s, fun o => match o with RErr EHandleOpen => true | _ => false end)
-  | None => let '(fs', chk) := k (ss_fs s) in ({| ss_fs := fs'; ss_h := None; ss_det := ss_det s |}, chk)
+  | None => let '(fs', chk) := k (ss_fs s) in
+            let orig := if patch
+                        then match sfs_get (ss_orig s) f, sfs_get (ss_fs s) f with
+                             | None, Some c => sfs_put (ss_orig s) f c
+                             | _, _ => ss_orig s
+                             end
+                        else sfs_del (ss_orig s) f in
+            ({| ss_fs := fs'; ss_h := None; ss_orig := orig; ss_det := ss_det s |}, chk)
   end.
 Definition no_file (o:out) : bool := match o with RErr ENoFile => true | _ => false end.
 
-Definition spec_step (s:sstate) (o:op) : sstate * (out -> bool) :=
+(* operations on a series with lone marker lines: reads are judged (C18); for the rest only
+   "no panic" is demanded; appends end the determined part of the history *)
+Definition spec_step_damaged (s:sstate) (h:shandle) (sure:list line) (o:op) : sstate * (out -> bool) :=
+  match o with
+  | OReadAll lo hi => (s, damaged_read h sure lo hi None)
+  | OReadFirstN n lo hi => (s, if (n =? 0)%N then is_nothing else damaged_read h sure lo hi (Some n))
+  | OPayloadSize => (s, fun o => is_out o (RNum (N.of_nat (sh_p h))))
+  | OReadN _ _ _ | ONLines _ _ | OLastLine | OLen | OIsEmpty | ORange => (s, no_panic)
+  | _ => (undetermined s, anything)
+  end.
+
+Definition spec_step' (s:sstate) (o:op) : sstate * (out -> bool) :=
   match o with
   | ONew name p hdr caches cb => spec_new s name p hdr caches cb
   | OOpen name popt hdr caches cb => spec_open s name popt hdr caches cb
@@ -192,25 +283,34 @@ Definition spec_step (s:sstate) (o:op) : sstate * (out -> bool) :=
   | OIsEmpty => with_h s (fun h => (s, fun o => is_out o (RBool (match sh_lines h with [] => true | _ => false end))))
   | ORange => with_h s (fun h => (s, fun o => is_out o (RRange (first_last (sh_lines h)))))
   | OPayloadSize => with_h s (fun h => (s, fun o => is_out o (RNum (N.of_nat (sh_p h)))))
-  | OFsTrunc f n => spec_fs s (fun fs => match sfs_get fs f with
+  | OFsTrunc f n => spec_fs s f false (fun fs => match sfs_get fs f with
                                          | Some c => (sfs_put fs f (take n c ++ repeat x00 (N.to_nat n - length c)), fun o => is_out o RUnit)
                                          | None => (fs, no_file)
                                          end)
-  | OFsRm f => spec_fs s (fun fs => if sfs_mem fs f then (sfs_del fs f, fun o => is_out o RUnit) else (fs, no_file))
-  | OFsWrite f b => spec_fs s (fun fs => (sfs_put fs f b, fun o => is_out o RUnit))
-  | OFsAppend f b => spec_fs s (fun fs => match sfs_get fs f with
+  | OFsRm f => spec_fs s f false (fun fs => if sfs_mem fs f then (sfs_del fs f, fun o => is_out o RUnit) else (fs, no_file))
+  | OFsWrite f b => spec_fs s f false (fun fs => (sfs_put fs f b, fun o => is_out o RUnit))
+  | OFsAppend f b => spec_fs s f false (fun fs => match sfs_get fs f with
                                           | Some c => (sfs_put fs f (c ++ b), fun o => is_out o RUnit)
                                           | None => (fs, no_file)
                                           end)
-  | OFsCut f k => spec_fs s (fun fs => match sfs_get fs f with
+  | OFsCut f k => spec_fs s f false (fun fs => match sfs_get fs f with
                                        | Some c => (sfs_put fs f (take (len c - k) c), fun o => is_out o RUnit)
                                        | None => (fs, no_file)
                                        end)
-  | OFsPatch f k b => spec_fs s (fun fs => match sfs_get fs f with
+  | OFsPatch f k b => spec_fs s f true (fun fs => match sfs_get fs f with
                                            | Some c => (sfs_put fs f (patch_from_end c k b), fun o => is_out o RUnit)
                                            | None => (fs, no_file)
                                            end)
   end.
+Definition spec_step (s:sstate) (o:op) : sstate * (out -> bool) :=
+  match ss_h s with
+  | Some h => match sh_dmg h, o with
+              | Some sure, (ONew _ _ _ _ _ | OOpen _ _ _ _ _ | OClose) => spec_step' s o
+              | Some sure, _ => spec_step_damaged s h sure o
+              | None, _ => spec_step' s o
+              end
+  | None => spec_step' s o
+  end.
 End SpecStep.
 
-Definition spec_init : sstate := {| ss_fs := []; ss_h := None; ss_det := true |}.
+Definition spec_init : sstate := {| ss_fs := []; ss_h := None; ss_orig := []; ss_det := true |}.
